@@ -15,9 +15,9 @@ import solve_oracles as so
 import gen_radius
 
 MODULE = "DfolsVerif.Properties.C18"
-BUILD_TARGETS = ["DfolsVerif.Driver.RadiusDrv"]
+BUILD_TARGETS = ["DfolsVerif.Driver.RadiusDrv", "DfolsVerif.Driver.IterDrv"]
 THEOREMS = ["Dfols.C18.radius_src_eq", "Dfols.C18.applyOp_inv", "Dfols.C18.C18_radii", "Dfols.C18.C18_rho_nonincreasing",
-            "Dfols.C18.C18_delta_cap_partial", "Dfols.C18.C18_reduce_progress"]
+            "Dfols.C18.C18_delta_cap_partial", "Dfols.C18.C18_reduce_progress", "Dfols.C18.C18_no_stall"]
 TRUSTED_EXTRA = [
     "radius theorems are exact arithmetic over the reals (rounding not covered); hypothesis 1/250 <= alpha1 <= 1 (the table accepts [0,1]: recorded)",
     "delta <= 1e10 proved for tau = 1 only (with a regulariser delta is divided by tau <= 1)",
@@ -109,6 +109,33 @@ def correspondence(ctx):
                 want.append(fbits(fge[3]))
                 where.append((seed, i))
                 n["geomd"] += 1
+    # progress acceptor: every iteration evaluates / strictly reduces rho / restarts / exits
+    from core import fkey
+    ilines = []
+    for (seed, prob, kw, d, t, fault) in metas:
+        toks = []
+        for e in t.events:
+            if e[0] == "itp":
+                toks.append("i")
+            elif e[0] == "obj":
+                toks.append("o")
+            elif e[0] == "srb":
+                toks.append("s")
+            elif e[0] in ("rst", "rend"):
+                toks.append("e")
+            elif e[0] == "rrho":
+                toks.append("r:%s:%s:%s" % (fkey(e[2]), fkey(e[7]), fkey(e[3])))
+        ilines.append("iter " + " ".join(toks))
+    iout = core.run_driver(ilines, main="IterMain.lean") if ilines else []
+    nrej, maxstreak = 0, 0
+    for (seed, prob, kw, d, t, fault), rep in zip(metas, iout):
+        if rep.startswith("ok"):
+            maxstreak = max(maxstreak, int(rep.split("=")[1]))
+        else:
+            nrej += 1
+            if nrej <= 3:
+                ctx.broke("correspondence:IterAcc-rejects-real-trace", {"seed": seed, "config": ss.describe(d), "lean": rep})
+    ctx.cov["progress_acceptor"] = {"traces": len(ilines), "rejected": nrej, "longest_evaluation_free_streak": maxstreak}
     out = core.run_driver(lines, main="RadiusMain.lean") if lines else []
     mism = [(l, o, w, wh) for l, o, w, wh in zip(lines, out, want, where) if o != w]
     ctx.cov["radius_correspondence"] = {"updates_compared": n, "mismatches": len(mism)}
